@@ -28,7 +28,7 @@ struct C11 : Property
 	std::vector<std::string> probes() const override
 	{
 		return {"set.grow_from_inline_to_heap", "set.grow_heap_to_bigger_heap", "set.shrink_within_heap", "set.shrink_within_inline", "set.to_zero_length_from_heap", "set.same_length",
-		        "set.embedded_nul", "set.non_utf8", "set.refused_length", "set.alloc_failed_contents_kept", "roundtrip.with_nul", "copy.of_heap_string", "strlen_variant_truncates"};
+		        "set.embedded_nul", "set.non_utf8", "set.refused_length", "set.alloc_failed_contents_kept", "roundtrip.with_nul", "copy.of_heap_string", "strlen_variant_truncates", "serialize.colour_flag"};
 	}
 
 	static std::string gen_bytes(Rng &r, size_t prev)
@@ -96,7 +96,7 @@ struct C11 : Property
 				op.a = {node, (int64_t)INT_MAX - (int64_t)r.below(2)}; // a length no 4-byte source and no allocator can satisfy
 				break;
 			case 6: op.kind = "copy"; op.a = {node}; break;
-			case 7: op.kind = "roundtrip"; op.a = {node, (int64_t)r.below(2)}; break;
+			case 7: op.kind = "roundtrip"; op.a = {node, (int64_t)r.below(4)}; break;
 			case 8: op.kind = "equal"; op.a = {node, (int64_t)r.below(3)}; break;
 			default: op.kind = "put"; op.a = {node}; break;
 			}
@@ -345,8 +345,26 @@ struct C11 : Property
 			else if (op.kind == "roundtrip")
 			{
 				Node &n = ensure(ni);
-				int flags = (op.arg(1) & 1) ? JSON_C_TO_STRING_NOSLASHESCAPE : JSON_C_TO_STRING_PLAIN;
+				static const int rt_flags[4] = {JSON_C_TO_STRING_PLAIN, JSON_C_TO_STRING_NOSLASHESCAPE, JSON_C_TO_STRING_COLOR, JSON_C_TO_STRING_COLOR | JSON_C_TO_STRING_PRETTY | JSON_C_TO_STRING_SPACED};
+				int flags = rt_flags[op.arg(1) & 3];
 				std::string text = ser(n.o, flags);
+				if (flags & JSON_C_TO_STRING_COLOR)
+				{
+					// colour = the same text with terminal escape sequences around the tokens; a raw ESC never occurs inside an escaped JSON string
+					std::string plain;
+					for (size_t i = 0; i < text.size(); i++)
+					{
+						if (text[i] == '\x1b' && i + 1 < text.size() && text[i + 1] == '[')
+						{
+							while (i < text.size() && text[i] != 'm')
+								i++;
+							continue;
+						}
+						plain.push_back(text[i]);
+					}
+					text = plain;
+					ctx.probe("serialize.colour_flag");
+				}
 				text.push_back('\0');
 				ParseResult r = oneshot(text, 0, 32);
 				struct json_object *fresh = LIB(json_object_new_string_len(n.bytes.data(), (int)n.bytes.size()));
